@@ -500,8 +500,20 @@ class FileIndex(Index):
         from whoosh.reading import SegmentReader, MultiReader, EmptyReader
 
         if reuse:
-            # Merge segments with reuse segments
-            segments.extend([segment for segment in reuse.segments() if segment not in segments])
+            # Carry over the reused reader's segments that live outside this
+            # index's storage (e.g. a BufferedWriter's in-memory segment).
+            # Segments in this storage are governed by the TOC alone: one that
+            # is no longer listed has been merged away or cleared
+            for r, _ in reuse.leaf_readers():
+                segment = r.segment()
+                rstorage = r.storage()
+                # (a compound segment is read through an overlay on top of
+                # the index storage)
+                inindex = (rstorage is storage
+                           or getattr(rstorage, "b", None) is storage)
+                if (segment is not None and not inindex
+                    and segment not in segments):
+                    segments.append(segment)
 
         reusable = {}
         try:
